@@ -16,5 +16,6 @@ CONSTANTS
   OwnVary <- MCOwnVary
   MaxReqs = 2
   WrongDesign = "none"
+  SameObj = FALSE
   MaxFaults = 1
 INVARIANT EmitLast
